@@ -111,7 +111,13 @@ func verifOptions(c verifCase) map[string]string {
 	o.Logger = log.New(ioutil.Discard, "", 0)
 	o.flagSet()
 	res := map[string]string{}
-	v := reflect.ValueOf(*o)
+	verifDumpFields(reflect.ValueOf(*o), res)
+	return res
+}
+
+// every setting by field name; the fields of an embedded group of settings are promoted (opts.X reads them), so they are
+// reported under their own names
+func verifDumpFields(v reflect.Value, res map[string]string) {
 	for i := 0; i < v.NumField(); i++ {
 		f := v.Field(i)
 		switch f.Kind() {
@@ -123,9 +129,12 @@ func verifOptions(c verifCase) map[string]string {
 				b, _ := json.Marshal(f.Interface())
 				res[v.Type().Field(i).Name] = string(b)
 			}
+		case reflect.Struct:
+			if v.Type().Field(i).Anonymous {
+				verifDumpFields(f, res)
+			}
 		}
 	}
-	return res
 }
 
 func jsonString(f reflect.Value) string {
